@@ -1,5 +1,53 @@
 import Driver.Proto
-/-! C17 handler (not implemented yet). -/
+import ThunderModel.Conn
+/-! C17 handler: replay of a connection history in the lifecycle model. -/
+open Lean TM TM.Conn
+
 namespace Driver.C17
-def handle : Handler := fun _ => throw "C17: no model yet"
+
+def decLabel (j : Json) : Except String Label := do
+  let k ← str j "l"
+  let a := (j.getObjValAs? Nat "a").toOption.getD 0
+  let acc := (j.getObjValAs? Bool "acc").toOption.getD false
+  match k with
+  | "subscribe" => pure (.subscribe a acc)
+  | "mutate" => pure (.mutate a acc)
+  | "closeSub" =>
+      match j.getObjVal? "by" with
+      | .ok (.num n) => pure (.closeSub a (some n.mantissa.toNat))
+      | _ => pure (.closeSub a none)
+  | "runOk" => pure (.runOk a)
+  | "runFail" => pure (.runFail a)
+  | "sockClose" => pure .sockClose
+  | _ => throw s!"bad label {k}"
+
+def replay (cfg : Cfg) : St → List Label → Nat → St × Option Nat
+  | s, [], _ => (s, none)
+  | s, l :: ls, i => match step cfg s l with
+      | some s' => replay cfg s' ls (i + 1)
+      | none => (s, some i)
+
+def encEv : Ev → Json
+  | .S id rid => Json.mkObj [("e", "S"), ("id", (id : Nat)), ("rid", (rid : Nat))]
+  | .U id rid => Json.mkObj [("e", "U"), ("id", (id : Nat)), ("rid", (rid : Nat))]
+
+def encSt (s : St) : Json :=
+  Json.mkObj [
+    ("subs", Json.arr (s.subs.map fun e => Json.mkObj [("id", (e.id : Nat)), ("rid", (e.rid : Nat)),
+      ("kind", match e.kind with | .sub => "sub" | .mut => "mut")]).toArray),
+    ("stopped", jNats s.stopped), ("dead", jNats s.dead), ("log", Json.arr (s.log.map encEv).toArray),
+    ("pending", Json.arr (s.pending.map fun (a, b) => Json.arr #[(a : Json), (b : Json)]).toArray),
+    ("closed", s.closed), ("orphans", jNats (orphans s))]
+
+def handle : Handler := fun req => do
+  let op ← str req "op"
+  match op with
+  | "replay" =>
+    let ls ← listOf decLabel (← field req "labels")
+    let mx := (req.getObjValAs? Nat "max").toOption.getD 200
+    let cfg : Cfg := if (req.getObjValAs? Bool "old").toOption.getD false then { old with max := mx } else repairedWith mx
+    let (s, bad) := replay cfg init ls 0
+    pure <| Json.mkObj [("state", encSt s), ("stuck", match bad with | some i => (i : Json) | none => Json.null)]
+  | _ => throw s!"C17: unknown op {op}"
+
 end Driver.C17
